@@ -10,6 +10,10 @@ import (
 	"github.com/ulikunitz/lz"
 )
 
+// errConfigRejected marks a stored case whose configuration NewParser no longer
+// accepts.
+var errConfigRejected = errors.New("configuration rejected by NewParser")
+
 // Errors of the reference expander.
 var (
 	errRefLitLen = errors.New("ref: LitLen exceeds remaining literals")
